@@ -152,6 +152,11 @@ fn count_osstr_chars_for_exec(s: &OsStr) -> usize {
 struct MaxCharsCommandSizeLimiter {
     current_size: usize,
     max_chars: usize,
+    /// Bytes the operating system charges per argument besides the string
+    /// itself and its terminator (the argv pointer).
+    per_arg_overhead: usize,
+    /// Largest single argument (with terminator) the operating system accepts.
+    max_single_arg: usize,
 }
 
 impl MaxCharsCommandSizeLimiter {
@@ -159,6 +164,8 @@ impl MaxCharsCommandSizeLimiter {
         Self {
             current_size: 0,
             max_chars,
+            per_arg_overhead: 0,
+            max_single_arg: usize::MAX,
         }
     }
 
@@ -176,12 +183,24 @@ impl MaxCharsCommandSizeLimiter {
         const ARG_HEADROOM: usize = 2048;
         let arg_max = unsafe { uucore::libc::sysconf(uucore::libc::_SC_ARG_MAX) } as usize;
 
+        // The kernel counts one pointer per argv/envp entry against the same
+        // budget, and refuses any single string longer than 32 pages.
+        const POINTER_SIZE: usize = std::mem::size_of::<*const u8>();
+        const MAX_SINGLE_ARG: usize = 32 * 4096;
         let env_size: usize = env
             .iter()
-            .map(|(var, value)| count_osstr_chars_for_exec(var) + count_osstr_chars_for_exec(value))
+            .map(|(var, value)| {
+                count_osstr_chars_for_exec(var) + count_osstr_chars_for_exec(value) + POINTER_SIZE
+            })
             .sum();
 
-        Self::new(arg_max - ARG_HEADROOM - env_size)
+        Self {
+            // Leave room for the terminating NULL pointers of argv and envp.
+            max_chars: arg_max.saturating_sub(ARG_HEADROOM + env_size + 2 * POINTER_SIZE),
+            per_arg_overhead: POINTER_SIZE,
+            max_single_arg: MAX_SINGLE_ARG,
+            current_size: 0,
+        }
     }
 }
 
@@ -192,7 +211,9 @@ impl CommandSizeLimiter for MaxCharsCommandSizeLimiter {
         cursor: LimiterCursor<'_>,
     ) -> Result<Argument, ExhaustedCommandSpace> {
         let chars = count_osstr_chars_for_exec(&arg.arg);
-        if self.current_size + chars <= self.max_chars {
+        let fits_alone = chars <= self.max_single_arg;
+        let chars = chars + self.per_arg_overhead;
+        if fits_alone && self.current_size + chars <= self.max_chars {
             let arg = cursor.try_next(arg)?;
             self.current_size += chars;
             Ok(arg)
